@@ -20,8 +20,11 @@ def scenarios(ctx: Ctx) -> list:
 
 
 def run(ctx: Ctx) -> None:
+    from props import cachemodel as cm
     model_check_cache(ctx)
-    run_family(ctx, 'C05', scenarios(ctx), {})
+    mscs, by_id = cm.scenarios(ctx, ctx.pick(400, 6000), 'c05')
+    traces = run_family(ctx, 'C05', scenarios(ctx) + mscs, {})
+    cm.drift(ctx, traces, by_id)
 
 
 def replay(ctx: Ctx, path: str) -> None:
